@@ -9,7 +9,7 @@ W=/tmp/arena_$N;
 if [ "$P" = "--rm" ]; then git -C /repo worktree remove --force $W/src 2>/dev/null; rm -rf $W; exit 0; fi
 mkdir -p $W
 [ -d $W/src ] || git -C /repo worktree add --detach $W/src HEAD >/dev/null 2>&1 || { echo "worktree failed"; exit 2; }
-git -C $W/src checkout -q --detach $(git -C /repo rev-parse HEAD) 2>/dev/null; git -C $W/src checkout -- . 
+git -C $W/src reset -q --hard 2>/dev/null; git -C $W/src checkout -q --detach $(git -C /repo rev-parse HEAD) 2>/dev/null; git -C $W/src reset -q --hard
 if [ "$P" != "-" ]; then git -C $W/src apply "$P" 2>/dev/null || git -C $W/src apply --3way "$P" || { echo "patch does not apply"; exit 2; }; git -C $W/src reset -q; fi
 export VERIF_REPO=$W/src VERIF_BUILD=$W/build VERIF_OUT=$W/out
 for id in "$@"; do
@@ -18,4 +18,4 @@ for id in "$@"; do
   elif [ $rc -eq 0 ]; then echo "$id MISSED/clean"; echo "$out" | grep "KNOWN-FINDING" | head -3
   else echo "$id ERROR rc=$rc"; echo "$out" | tail -15; fi
 done
-git -C $W/src checkout -- .
+git -C $W/src reset -q --hard
